@@ -62,11 +62,14 @@ def run(tier: str, seed: int, rep: Report, model: Model) -> dict:
     while len(bases) < n:
         c = GC.gen_case(rnd)
         r = rnd.random()
+        nf = 0
         if r > 0.35:
             for _ in range(1 if r < 0.8 else 2):
                 p = GC.perturb(rnd, c)
                 if p:
                     c = p[0]
+                    nf += 1
+        c["nfaults"] = nf
         if shared_only(c):
             bases.append(c)
     cases = []
@@ -99,7 +102,7 @@ def run(tier: str, seed: int, rep: Report, model: Model) -> dict:
             rep.violation({"what": "a call did not finish", **rec})
         elif len(set(ims)) != 1:
             rep.violation({"what": "verdict or report changes with the array library or with how the array was produced", **rec})
-        elif ims != mos and three[0][1]["v"] != "identity":
+        elif three[0][1]["v"] != "identity" and (ims != mos if base.get("nfaults", 0) <= 1 else [x[0] for x in ims] != [x[0] for x in mos]):
             rep.disagreement({"what": "model and implementation differ", **rec})
         if rep.many_violations():
             break
